@@ -3,7 +3,7 @@
 From Coq Require Import Reals ZArith List.
 From Flocq Require Import Core IEEE754.Binary IEEE754.Bits.
 From QV Require Import Rt.Prelude Rt.Amount Rt.Quantity Gen.Prefixes Gen.Kernels Amount.F64 Amount.F64Acc
-  Amount.DecModel Amount.Dec Amount.DecAcc Proofs.Laws Proofs.Kernel Proofs.C13 Proofs.AccF64 Proofs.AccDec Proofs.AccRate.
+  Amount.DecModel Amount.Dec Amount.DecAcc Proofs.Laws Proofs.Kernel Proofs.C13 Proofs.AccF64 Proofs.AccDec Proofs.AccRate Proofs.AccInverse.
 From QV Require Amount.Laws.
 From QV Require Import Props.AccuracyRate.
 Local Open Scope R_scope.
@@ -47,3 +47,20 @@ Check DEC_C13_qty_div_rate : forall (TQ : QFull DEC) (PQ : QBase DEC), QLaws PQ 
 Check DEC_C13_ratio_same_unit : forall (S : QBase DEC), QLaws S -> forall (q : Qt S) (u : nat),
   In u (u_iter S) -> q_unit S q = u ->
   exists x1, HasRefUnit_div S q (q_new S (a_one DEC) u) = Ok x1 /\ dval x1 = dval (q_amount S q).
+Check ACC_C13_mul_then_div : forall (TQ PQ : QFull F64), QLaws TQ -> QLaws PQ ->
+  (forall x y, q_div TQ x y = HasRefUnit_div TQ x y) -> (forall x y, q_div PQ x y = HasRefUnit_div PQ x y) ->
+  forall (r : rate F64) (q : Qt PQ),
+  let a := q_amount PQ q in let t := rt_term_amount r in let p := rt_per_unit_multiple r in
+  let x1 := f64_div a f64_one in
+  let y0 := f64_mul (f64_div x1 p) t in
+  let x1' := f64_div y0 f64_one in
+  In (rt_term_unit r) (u_iter TQ) -> In (rt_per_unit r) (u_iter PQ) -> q_unit PQ q = rt_per_unit r ->
+  is_finite 53 1024 a = true -> is_finite 53 1024 t = true -> is_finite 53 1024 p = true -> B2R 53 1024 t <> 0 -> B2R 53 1024 p <> 0 ->
+  normal (B2R 53 1024 x1 / B2R 53 1024 p) -> normal (B2R 53 1024 (f64_div x1 p) * B2R 53 1024 t) ->
+  normal (B2R 53 1024 x1' / B2R 53 1024 t) -> normal (B2R 53 1024 (f64_div x1' t) * B2R 53 1024 p) ->
+  exists y y' d1 d2 d3 d4,
+    Rate_mul TQ PQ r q = Ok y /\ q_unit TQ y = rt_term_unit r /\
+    tmpl_Div_Qty_Rate TQ PQ y r = Ok y' /\ q_unit PQ y' = rt_per_unit r /\
+    Rabs d1 <= u64 /\ Rabs d2 <= u64 /\ Rabs d3 <= u64 /\ Rabs d4 <= u64 /\
+    B2R 53 1024 x1 = B2R 53 1024 a /\
+    B2R 53 1024 (q_amount PQ y') = B2R 53 1024 a * (1 + d1) * (1 + d2) * (1 + d3) * (1 + d4).
